@@ -55,6 +55,9 @@ Inductive case :=
    byte streams both ways (digests): what the user sent / the backend received, what the backend sent /
    the user received *)
 | CTunnel (kind : Z) (accepted : bool) (up_sent up_recv down_sent down_recv : bytes)
+(* a sequence of requests on one connection that ends in a client plugin (through frps): compression flag of
+   the proxy, and for every request whether it was answered *)
+| CKeep (compressed : bool) (answered : list bool)
 (* a request through frps (route rc) and then a plugin of frpc *)
 | CChain (rc : hr_route) (p : hr_plugin) (o : hr_popts) (plugin_client_ip : option bytes)
          (uq : hr_req) (reenc : bytes) (seen : c02_seen) (resp got : hr_resp).
@@ -161,6 +164,10 @@ Definition check_case (c : case) : Z :=
       else if negb (elapsed <=? bound) then 33
       else if negb other_ok then 34
       else 0
+  | CKeep compressed answered =>
+      (* the handler (a reverse proxy round trip) outlives the request body: background read pending *)
+      let pred := hk_serve (hk_fresh compressed) (map (fun _ => true) answered) in
+      if forallb (fun ab => Bool.eqb (fst ab) (snd ab)) (combine pred answered) then 0 else 51
   | CTunnel kind accepted us ur ds dr =>
       if negb accepted then 41
       else if negb (bytes_eqb us ur) then 42
@@ -213,3 +220,5 @@ Definition is_plug (p : hr_plugin) (c : case) : bool :=
   end.
 Definition is_chain (c : case) : bool := match c with CChain _ _ _ _ _ _ _ _ _ => true | _ => false end.
 Definition is_tunnel (k : Z) (c : case) : bool := match c with CTunnel k' _ _ _ _ _ => k' =? k | _ => false end.
+Definition is_keep (comp : bool) (c : case) : bool := match c with CKeep k _ => Bool.eqb k comp | _ => false end.
+Definition keep_lost (c : case) : bool := match c with CKeep _ a => existsb negb a | _ => false end.
